@@ -272,6 +272,7 @@ func (c *Circuit) run(ctx context.Context, runFunc func(context.Context) error) 
 		return nil
 	}
 	var expectedDoneBy time.Time
+	hasTimeout := false
 	startTime := c.now()
 	originalContext := ctx
 
@@ -296,6 +297,7 @@ func (c *Circuit) run(ctx context.Context, runFunc func(context.Context) error) 
 	if executionTimeout := c.threadSafeConfig.Execution.ExecutionTimeout.Duration(); executionTimeout > 0 {
 		var timeoutCancel func()
 		expectedDoneBy = startTime.Add(executionTimeout)
+		hasTimeout = true
 		ctx, timeoutCancel = context.WithDeadline(ctx, expectedDoneBy)
 		defer timeoutCancel()
 	}
@@ -316,7 +318,7 @@ func (c *Circuit) run(ctx context.Context, runFunc func(context.Context) error) 
 
 	// Even if there is no error (or if there is an error), if the request took too long it is always an error for the
 	// circuit.  Note that ret *MAY* actually be nil.  In that case, we still want to return nil.
-	if c.checkErrTimeout(ctx, expectedDoneBy, runFuncDoneTime, totalCmdTime) {
+	if c.checkErrTimeout(ctx, hasTimeout, expectedDoneBy, runFuncDoneTime, totalCmdTime) {
 		// Note: ret could possibly be nil.  We will still return nil, but the circuit will consider it a failure.
 		return ret
 	}
@@ -394,9 +396,10 @@ func (c *Circuit) checkErrFailure(ctx context.Context, ret error, runFuncDoneTim
 	return false
 }
 
-func (c *Circuit) checkErrTimeout(ctx context.Context, expectedDoneBy time.Time, runFuncDoneTime time.Time, totalCmdTime time.Duration) bool {
+func (c *Circuit) checkErrTimeout(ctx context.Context, hasTimeout bool, expectedDoneBy time.Time, runFuncDoneTime time.Time, totalCmdTime time.Duration) bool {
 	// I don't use the deadline from the context because it could be a smaller timeout from the parent context
-	if !expectedDoneBy.IsZero() && expectedDoneBy.Before(runFuncDoneTime) {
+	// hasTimeout, not a zero expectedDoneBy, says whether a timeout applies: a clock may read the zero time
+	if hasTimeout && expectedDoneBy.Before(runFuncDoneTime) {
 		c.CmdMetricCollector.ErrTimeout(ctx, runFuncDoneTime, totalCmdTime)
 		if !c.IsOpen() {
 			c.attemptToOpen(ctx, runFuncDoneTime)
